@@ -45,6 +45,7 @@ import (
 	"sort"
 	"strings"
 	"sync"
+	"sync/atomic"
 	"testing"
 	"testing/synctest"
 	"time"
@@ -477,8 +478,17 @@ func (l *vfC18Ledger) check(m *certManager, o vfC18Obs, who string) []vfC18Issue
 
 type vfC18Learned struct {
 	addr   string
+	maddr  ma.Multiaddr
+	hashes []multihash.DecodedMultihash // extractCertHashes(maddr): what transport.dialWithScope hands to dial and upgrade
+	period int                          // companion's roll count when learned
+	gen    int                          // incarnation of the manager it was learned from
+}
+
+// vfC18Served: a chain that was served at some instant, with an address that pinned it then
+type vfC18Served struct {
+	raw    [][]byte
+	nb, na time.Time
 	hashes []multihash.DecodedMultihash
-	period int // companion's change count when learned
 }
 
 type vfC18Sys struct {
@@ -493,6 +503,9 @@ type vfC18Sys struct {
 	issues []vfC18Issue
 	nobs   int
 	rep    vfC18Rep
+	gen    int // incremented by every restart
+	old    []vfC18Served
+	dials  int
 }
 
 func vfC18NewSys(mode string, key vfC18Key, start time.Time, rep vfC18Rep) (*vfC18Sys, error) {
@@ -557,6 +570,7 @@ func (s *vfC18Sys) restartEnd() error {
 	var err error
 	s.mg, err = newCertManager(s.key.priv, s.clk)
 	s.lmg = &vfC18Ledger{}
+	s.gen++
 	synctest.Wait()
 	return err
 }
@@ -605,30 +619,93 @@ func (s *vfC18Sys) sample() {
 	}
 	s.crossCheck(s.sh, osh, s.lsh, "continuous manager")
 	s.crossCheck(s.mg, o, s.lmg, "manager")
-	// "an address learned at any time keeps verifying through the current and the following period":
-	// the period structure is the continuous manager's; with the real clock (bubble time) the dialer's
-	// verifier itself is asked, otherwise hash membership
+	// END TO END: "an address learned at any time keeps verifying through the current and the following
+	// period". Every address learned so far (AddrComponent at an earlier sample) is dialed now, against both
+	// managers, with the dialer's own steps: extractCertHashes(address) -> verifyRawCerts on the served chain
+	// (TLS pinning; with the mock clock, whose time verifyRawCerts cannot see, hash membership) -> the
+	// comparison of transport.upgrade: EVERY hash used must be in the server's Noise early data, which
+	// listener.handshake fills from SerializedCertHashes() and the dialer decodes with
+	// decodeCertHashesFromProtobuf. The period structure is the continuous manager's: the requirement ends
+	// with the second roll after learning.
 	var keep []vfC18Learned
 	for _, l := range s.learnt {
-		if s.lsh.changes-l.period > 1 {
+		age := s.lsh.changes - l.period
+		if age > 1 {
 			continue
 		}
 		keep = append(keep, l)
-		if s.mode == "real" {
-			if err := verifyRawCerts(o.Raw, l.hashes); err != nil {
+		for _, srv := range []struct {
+			m   *certManager
+			o   vfC18Obs
+			who string
+		}{{s.mg, o, "manager"}, {s.sh, osh, "continuous manager"}} {
+			s.dials++
+			if s.mode == "real" {
+				if err := verifyRawCerts(srv.o.Raw, l.hashes); err != nil {
+					s.issues = append(s.issues, vfC18Issue{"learned-address-stops-verifying",
+						fmt.Sprintf("%s: verifyRawCerts refuses the served certificate against an address learned %d period(s) ago: %v", srv.who, age, err),
+						"accept", l.addr})
+				}
+			} else if !vfC18Has(l.hashes, srv.o.LeafHash) {
 				s.issues = append(s.issues, vfC18Issue{"learned-address-stops-verifying",
-					fmt.Sprintf("verifyRawCerts refuses the served certificate against an address learned %d period(s) ago: %v", s.lsh.changes-l.period, err),
-					"accept", l.addr})
+					fmt.Sprintf("%s: an address learned %d period(s) ago does not contain the served certificate's hash", srv.who, age),
+					vfC18Short(srv.o.LeafHash), l.addr})
 			}
-		} else if !vfC18Has(l.hashes, o.LeafHash) {
-			s.issues = append(s.issues, vfC18Issue{"learned-address-stops-verifying",
-				fmt.Sprintf("an address learned %d period(s) ago does not contain the served certificate's hash", s.lsh.changes-l.period),
-				vfC18Short(o.LeafHash), l.addr})
+			rcvd, err := decodeCertHashesFromProtobuf(srv.m.SerializedCertHashes())
+			if err != nil {
+				s.issues = append(s.issues, vfC18Issue{"advertised-undecodable", srv.who + ": early data: " + err.Error(), nil, nil})
+				continue
+			}
+			for _, sent := range l.hashes {
+				found := false
+				for _, r := range rcvd {
+					if sent.Code == r.Code && bytes.Equal(sent.Digest, r.Digest) {
+						found = true
+						break
+					}
+				}
+				if found {
+					continue
+				}
+				cls := "learned-address-hash-not-confirmed"
+				what := fmt.Sprintf("%s: a dial with an address learned %d period(s) ago (within the current and the following certificate period) is refused by transport.upgrade: the server's early data (SerializedCertHashes) lacks a certhash of that address", srv.who, age)
+				if srv.m == s.mg && l.gen < s.gen && s.lmg.changes == 0 && age == 1 {
+					// the manager was restarted inside the period following the one of the address: it has no
+					// lastConfig and therefore does not list the previous certificate
+					cls = "learned-address-hash-not-confirmed-after-restart-in-following-period"
+				}
+				s.issues = append(s.issues, vfC18Issue{cls, what, fmt.Sprintf("%x:%s", sent.Code, hex.EncodeToString(sent.Digest)[:12]), map[string]any{"early_data": vfC18Hexes(rcvd), "address": l.addr, "now": now.UTC().Format(time.RFC3339Nano)}})
+				break
+			}
 		}
 	}
 	s.learnt = keep
-	if n := len(s.learnt); n == 0 || s.learnt[n-1].addr != o.AddrStr {
-		s.learnt = append(s.learnt, vfC18Learned{addr: o.AddrStr, hashes: o.Addr, period: s.lsh.changes})
+	if n := len(s.learnt); n == 0 || s.learnt[n-1].addr != o.AddrStr || s.learnt[n-1].gen != s.gen {
+		a := ma.StringCast("/ip4/127.0.0.1/udp/4001/quic-v1/webtransport").Encapsulate(s.mg.AddrComponent())
+		if hs, err := extractCertHashes(a); err == nil {
+			s.learnt = append(s.learnt, vfC18Learned{addr: o.AddrStr, maddr: a, hashes: hs, period: s.lsh.changes, gen: s.gen})
+		} else {
+			s.issues = append(s.issues, vfC18Issue{"advertised-undecodable", "extractCertHashes(listen address): " + err.Error(), nil, nil})
+		}
+	}
+	// ... and the dialer's verdict is a function of (chain, hashes, now) only: chains served and pinned earlier
+	// are presented again; they must be refused once their NotAfter has passed (real clock only: verifyRawCerts
+	// reads time.Now)
+	if s.mode == "real" {
+		for _, c := range s.old {
+			err := verifyRawCerts(c.raw, c.hashes)
+			if valid := !now.Before(c.nb) && !now.After(c.na); err == nil && !valid {
+				s.issues = append(s.issues, vfC18Issue{"verifier-accepts-expired-cert",
+					"verifyRawCerts accepts a certificate it accepted while it was valid although now lies outside [NotBefore, NotAfter] (the verdict must not be remembered across calls)",
+					"reject", map[string]any{"now": now.UTC().String(), "notAfter": c.na.UTC().String()}})
+			}
+		}
+		if n := len(s.old); n == 0 || !bytes.Equal(s.old[n-1].raw[0], o.Raw[0]) {
+			s.old = append(s.old, vfC18Served{raw: o.Raw, nb: o.NB, na: o.NA, hashes: o.Addr})
+			if len(s.old) > 3 {
+				s.old = s.old[1:]
+			}
+		}
 	}
 }
 
@@ -701,22 +778,27 @@ func (s *vfC18Sys) takeIssues() []vfC18Issue {
 
 type vfC18Scale struct {
 	K    int
-	Base time.Time // model tick 0 shifted by the sub-skew part of the key's offset
+	Base time.Time     // model tick 0 shifted by the sub-skew part of the key's offset
+	Eps  time.Duration // "just before / just after": 1 ns, 1 ms or 1 s (x509 times have second granularity)
 }
 
-// real maps tick 3j+r to j*skew + {0, +1ms, skew-1ms}[r]: monotone, commutes with adding whole skews,
+// real maps tick 3j+r to j*skew + {0, +eps, skew-eps}[r]: monotone, commutes with adding whole skews,
 // so every comparison of the code with a boundary (all boundaries are at whole skews relative to the
-// offset) has the outcome the integer model computes, and the instants 1 ms before and after every
+// offset) has the outcome the integer model computes, and the instants eps before and after every
 // boundary are model instants.
 func (sc vfC18Scale) real(t int) time.Time {
+	eps := sc.Eps
+	if eps == 0 {
+		eps = time.Millisecond
+	}
 	j, r := t/sc.K, t%sc.K
 	d := time.Duration(j) * vfC18Skew
 	switch {
 	case r == 0:
 	case r == 1:
-		d += time.Millisecond
+		d += eps
 	case r == sc.K-1:
-		d += vfC18Skew - time.Millisecond
+		d += vfC18Skew - eps
 	default:
 		d += time.Duration(r) * vfC18Skew / time.Duration(sc.K)
 	}
@@ -895,12 +977,12 @@ func TestVerifC18Replay(t *testing.T) {
 		t.Fatalf("no behaviour files in %q", vfh.In())
 	}
 	sort.Strings(files)
-	res.Rule = "one case = one (source state, action+arguments) transition of the TLC graph executed on the real certManager (mock clock or real clock inside a synctest bubble, plus a never-restarted companion manager; the clock's times in UTC / +02:00 / -08:00 / +05:45 / native Location, with or without monotonic reading, time.Local set to each of these zones in turn); after every step and 1 ms around every roll instant the statement's monitors are evaluated on GetConfig/SerializedCertHashes/AddrComponent, and the model's expectation is compared; every certificate and advertised list seen for a (key, bucket) is compared across all walks (rolled into / started in / restarted in the bucket, any representation)"
+	res.Rule = "one case = one (source state, action+arguments) transition of the TLC graph executed on the real certManager (mock clock or real clock inside a synctest bubble, plus a never-restarted companion manager; the clock's times in UTC / +02:00 / -08:00 / +05:45 / native Location, with or without monotonic reading, time.Local set to each of these zones in turn); after every step and 1 ns / 1 ms / 1 s (per walk) around every roll instant the statement's monitors are evaluated on GetConfig/SerializedCertHashes/AddrComponent, every address learned earlier is dialed end to end (extractCertHashes, verifyRawCerts or hash membership, the every-hash-confirmed comparison of transport.upgrade against decodeCertHashesFromProtobuf(SerializedCertHashes())) against both managers until the second roll after learning, and the model's expectation is compared; every certificate and advertised list seen for a (key, bucket) is compared across all walks (rolled into / started in / restarted in the bucket, any representation)"
 	seed := vfh.Seed()
 	keys := vfC18NewKeys(seed)
 	var mu sync.Mutex
 	machinery := ""
-	nobs := 0
+	nobs, ndials := 0, 0
 	type loaded struct {
 		hdr   map[string]any
 		walks []vfh.Walk
@@ -956,7 +1038,7 @@ func TestVerifC18Replay(t *testing.T) {
 								mode = "real"
 							}
 							synctest.Test(t, func(t *testing.T) {
-								r := &vfC18Replayer{sc: vfC18Scale{K: K}, split: w.Walk%2 == 0, scaleOK: scaleOK, rep: rep}
+								r := &vfC18Replayer{sc: vfC18Scale{K: K, Eps: []time.Duration{time.Nanosecond, time.Millisecond, time.Second}[(w.Walk/8)%3]}, split: w.Walk%2 == 0, scaleOK: scaleOK, rep: rep}
 								defer func() {
 									if r.sys != nil {
 										r.sys.close()
@@ -990,7 +1072,7 @@ func TestVerifC18Replay(t *testing.T) {
 										res.AddMismatch(vfh.Mismatch{Class: e.Class, What: e.What, Walk: w.Walk, Step: i, Expected: e.Exp, Got: e.Got,
 											Prefix: append([]vfh.Op{}, prefix...),
 											Cfg: map[string]any{"file": filepath.Base(f), "clock": mode, "split": r.split, "seed": seed, "time_representation": rep.String(),
-												"key_offset": r.sys.key.off.String(), "tick0": r.sc.Base.UTC().String(), "K": K, "VU": VU}})
+												"key_offset": r.sys.key.off.String(), "tick0": r.sc.Base.UTC().String(), "eps": r.sc.Eps.String(), "K": K, "VU": VU}})
 									}
 								}
 								res.Count(1, 0)
@@ -1010,6 +1092,7 @@ func TestVerifC18Replay(t *testing.T) {
 		t.Fatalf("machinery: %s", machinery)
 	}
 	res.Set("instants_monitored", nobs)
+	res.Set("learned_address_dials", ndials)
 	res.Set("keys_generated", keys.tries)
 	res.Set("time_local_phases", len(locals))
 }
@@ -1098,7 +1181,7 @@ func TestVerifC18Sweep(t *testing.T) {
 							log = append(log, "start "+start.UTC().Format(time.RFC3339Nano))
 							s.sample()
 							steps := 0
-							for j := 0; j < 14 && len(s.issues) == 0; j++ {
+							for j := 0; j < 14 && len(s.issues) < 20; j++ {
 								var d time.Duration
 								switch rnd.Intn(4) {
 								case 0: // anywhere within 40 days (now and then 200 days: many rolls in one move)
@@ -1111,7 +1194,7 @@ func TestVerifC18Sweep(t *testing.T) {
 									d = time.Duration(rnd.Int63n(int64(2*time.Hour/time.Millisecond))) * time.Millisecond
 								default: // around the instant at which the continuous manager's certificate has one skew left
 									o := vfC18Observe(s.sh, s.now())
-									d = o.NA.Add(-vfC18Skew).Sub(s.now()) + []time.Duration{-time.Second, -time.Millisecond, 0, time.Millisecond, time.Second, time.Hour - time.Millisecond, time.Hour, time.Hour + time.Millisecond}[rnd.Intn(8)]
+									d = o.NA.Add(-vfC18Skew).Sub(s.now()) + []time.Duration{-time.Second, -time.Millisecond, -time.Nanosecond, 0, time.Nanosecond, time.Millisecond, time.Second, time.Hour - time.Nanosecond, time.Hour, time.Hour + time.Nanosecond, time.Hour + time.Millisecond, 2 * time.Hour}[rnd.Intn(12)]
 									if d < 0 {
 										d = time.Millisecond
 									}
@@ -1167,6 +1250,8 @@ type vfC18Cert struct {
 	raw  []byte
 	priv crypto.Signer
 }
+
+var vfC18Serial atomic.Int64
 
 type vfC18CertFactory struct {
 	now    time.Time
@@ -1234,8 +1319,7 @@ func (f *vfC18CertFactory) make(alg, life, when string) (vfC18Cert, error) {
 	if err != nil {
 		return vfC18Cert{}, err
 	}
-	f.serial++
-	tmpl := &x509.Certificate{SerialNumber: big.NewInt(1000 + f.serial), Subject: pkix.Name{CommonName: "verif subject"},
+	tmpl := &x509.Certificate{SerialNumber: big.NewInt(1000 + vfC18Serial.Add(1)), Subject: pkix.Name{CommonName: "verif subject"},
 		NotBefore: nb, NotAfter: na, KeyUsage: x509.KeyUsageDigitalSignature | x509.KeyUsageCertSign, IsCA: true, BasicConstraintsValid: true,
 		ExtKeyUsage: []x509.ExtKeyUsage{x509.ExtKeyUsageServerAuth}}
 	issuer := &x509.Certificate{SerialNumber: big.NewInt(7), Subject: pkix.Name{CommonName: "verif issuer"},
@@ -1329,56 +1413,97 @@ func TestVerifC18Verifier(t *testing.T) {
 			t.Fatal(err)
 		}
 	}()
-	res.Rule = "one case = one row (chain shape, hash list, certificate algorithm, lifetime, position of now in the validity window) of the verifier table: real X.509 certificates, the list parsed from a multiaddr by extractCertHashes, verifyRawCerts called inside a synctest bubble whose clock sits exactly on the boundary instants; an acceptance outside the allowed set is confirmed by a crypto/tls handshake"
+	res.Rule = "one case = one transition (clock position, history of accepted certificates, row) of C18_Verifier: row = chain shape, hash list, certificate algorithm, lifetime; one behaviour = one synctest bubble whose clock is moved by the model's ticks through 1 s before NotBefore, NotBefore, the middle, NotAfter, 1 s after, with the SAME certificates queried again and again by the same process (real X.509 certificates, the list parsed from a multiaddr by extractCertHashes); an acceptance outside the allowed set is confirmed by a crypto/tls handshake"
 	files, _ := filepath.Glob(filepath.Join(vfh.In(), "*.jsonl"))
 	if len(files) == 0 {
 		t.Fatalf("no behaviour files in %q", vfh.In())
 	}
 	machinery := ""
-	accepted, rejected, handshakes := 0, 0, 0
-	synctest.Test(t, func(t *testing.T) {
-		now := time.Now()
-		if now.Nanosecond() != 0 {
-			machinery = "bubble clock is not on a whole second"
-			return
-		}
-		f, err := vfC18NewFactory(now)
+	accepted, rejected, handshakes, repeats, walksRun := 0, 0, 0, 0, 0
+	keys, err := vfC18NewFactory(time.Time{}) // the keys are made once; every behaviour gets fresh certificates
+	if err != nil {
+		t.Fatal(err)
+	}
+	b1, b2 := sha256.Sum256([]byte("verif bogus 1")), sha256.Sum256([]byte("verif bogus 2"))
+	for _, file := range files {
+		_, walks, err := vfh.LoadWalks(file)
 		if err != nil {
-			machinery = err.Error()
-			return
+			t.Fatal(err)
 		}
-		comp, err := f.make("ecdsa", "1d", "inside")
-		if err != nil {
-			machinery = err.Error()
-			return
-		}
-		// the companion gets its own key so that S and C never share one
-		ck, _ := ecdsa.GenerateKey(elliptic.P256(), crand.Reader)
-		ct := &x509.Certificate{SerialNumber: big.NewInt(99), Subject: pkix.Name{CommonName: "verif companion"}, NotBefore: now.Add(-12 * time.Hour), NotAfter: now.Add(12 * time.Hour),
-			KeyUsage: x509.KeyUsageDigitalSignature | x509.KeyUsageCertSign, IsCA: true, BasicConstraintsValid: true}
-		if comp.raw, err = x509.CreateCertificate(crand.Reader, ct, ct, ck.Public(), ck); err != nil {
-			machinery = err.Error()
-			return
-		}
-		comp.priv = ck
-		b1, b2 := sha256.Sum256([]byte("verif bogus 1")), sha256.Sum256([]byte("verif bogus 2"))
-		for _, file := range files {
-			_, walks, err := vfh.LoadWalks(file)
-			if err != nil {
-				machinery = err.Error()
-				return
+		for _, w := range walks {
+			if machinery != "" {
+				break
 			}
-			for _, w := range walks {
+			nv := 0
+			for _, st := range w.Steps {
+				if st.Op.Name() == "verify" {
+					nv++
+				}
+			}
+			if nv == 0 {
+				continue
+			}
+			walksRun++
+			// one behaviour = one bubble: its clock starts 1 s before the NotBefore of the behaviour's certificates
+			// and is moved (time.Sleep) by the model's tick steps; the verifier is the same process throughout
+			synctest.Test(t, func(t *testing.T) {
+				now0 := time.Now()
+				if now0.Nanosecond() != 0 {
+					machinery = "bubble clock is not on a whole second"
+					return
+				}
+				f := &vfC18CertFactory{now: now0, ec: keys.ec, ca: keys.ca, ed: keys.ed, rsa: keys.rsa, cache: map[string]vfC18Cert{}}
+				// the companion has its own key so that S and C never share one
+				ct := &x509.Certificate{SerialNumber: big.NewInt(vfC18Serial.Add(1)), Subject: pkix.Name{CommonName: "verif companion"}, NotBefore: now0.Add(-time.Hour), NotAfter: now0.Add(13 * 24 * time.Hour),
+					KeyUsage: x509.KeyUsageDigitalSignature | x509.KeyUsageCertSign, IsCA: true, BasicConstraintsValid: true}
+				comp := vfC18Cert{priv: keys.ca}
+				var err error
+				if comp.raw, err = x509.CreateCertificate(crand.Reader, ct, ct, keys.ca.Public(), keys.ca); err != nil {
+					machinery = err.Error()
+					return
+				}
+				life, pos := "", 0
+				var instants []time.Time
+				var prefix []vfh.Op
+				prevKey := string(w.Init)
 				for i, st := range w.Steps {
 					op := st.Op
-					if op.Name() != "verify" {
+					srcKey := prevKey
+					prevKey = string(st.State)
+					switch op.Name() {
+					case "choose":
+						life, pos = op.S("life"), 1
+						nb, na, err := f.window(life, "notyet")
+						if err != nil {
+							machinery = err.Error()
+							return
+						}
+						instants = []time.Time{nb.Add(-time.Second), nb, nb.Add(na.Sub(nb) / 2).Truncate(time.Second), na, na.Add(time.Second)}
+						prefix = append(prefix, op)
+						continue
+					case "tick":
+						if pos < 1 || pos >= 5 {
+							machinery = "tick outside the clock's range"
+							return
+						}
+						pos++
+						time.Sleep(instants[pos-1].Sub(time.Now()))
+						prefix = append(prefix, op)
+						continue
+					case "verify":
+					default:
 						continue
 					}
-					if !time.Now().Equal(now) {
-						machinery = "the bubble's clock moved"
+					prefix = append(prefix, op)
+					whens := []string{"notyet", "at_notbefore", "inside", "at_notafter", "expired"}
+					if pos < 1 || whens[pos-1] != op.S("when") || op.S("life") != life || !time.Now().Equal(instants[pos-1]) {
+						machinery = fmt.Sprintf("walk %d step %d: harness clock position %d does not match the model's %q", w.Walk, i, pos, op.S("when"))
 						return
 					}
-					s, err := f.make(op.S("alg"), op.S("life"), op.S("when"))
+					if op.B("repeat") {
+						repeats++
+					}
+					s, err := f.make(op.S("alg"), life, "notyet")
 					if err != nil {
 						machinery = err.Error()
 						return
@@ -1428,7 +1553,7 @@ func TestVerifC18Verifier(t *testing.T) {
 						rejected++
 					}
 					res.Count(0, 1)
-					res.Case(vfh.Canon(op))
+					res.Case(srcKey + "|" + vfh.Canon(op))
 					allowed := map[bool]bool{}
 					for _, a := range op.L("allowed") {
 						if b, ok := a.(bool); ok {
@@ -1440,14 +1565,14 @@ func TestVerifC18Verifier(t *testing.T) {
 							handshakes++
 							ok, _, herr := vfC18Handshake(chain, first.priv, hashes)
 							if !ok {
-								res.AddMismatch(vfh.Mismatch{Class: "L2:verifier-accepts-handshake-fails", What: fmt.Sprint("verifyRawCerts accepts but the TLS handshake fails: ", herr), Walk: w.Walk, Step: i, Cfg: op})
+								res.AddMismatch(vfh.Mismatch{Class: "L2:verifier-accepts-handshake-fails", What: fmt.Sprint("verifyRawCerts accepts but the TLS handshake fails: ", herr), Walk: w.Walk, Step: i, Cfg: op, Prefix: append([]vfh.Op{}, prefix...)})
 							}
 						}
 						continue
 					}
 					if !got { // "accepts only if": a refusal of an acceptable certificate is not excluded by the statement
 						res.AddMismatch(vfh.Mismatch{Class: "L2:verifier-refuses-acceptable-cert",
-							What: fmt.Sprintf("verifyRawCerts refuses a row the table accepts: %v", verr), Walk: w.Walk, Step: i, Expected: true, Got: false, Cfg: op})
+							What: fmt.Sprintf("verifyRawCerts refuses a row the table accepts: %v", verr), Walk: w.Walk, Step: i, Expected: true, Got: false, Cfg: op, Prefix: append([]vfh.Op{}, prefix...)})
 						continue
 					}
 					// accepted although the statement's conditions do not hold: name the first failing one
@@ -1475,7 +1600,10 @@ func TestVerifC18Verifier(t *testing.T) {
 						cls = "verifier-accepts"
 					}
 					what := "verifyRawCerts accepts a chain/hash-list pair the statement excludes"
-					gotd := map[string]any{"verifyRawCerts": "accept"}
+					if op.B("repeat") {
+						what += " (the same certificate was accepted earlier in this process: see the prefix; the verdict must be a function of chain, hash list and the current time only)"
+					}
+					gotd := map[string]any{"verifyRawCerts": "accept", "now": time.Now().UTC().String(), "asked_before_and_accepted": op.B("repeat")}
 					if len(chain) > 0 {
 						handshakes++
 						ok, sc, herr := vfC18Handshake(chain, first.priv, hashes)
@@ -1489,20 +1617,22 @@ func TestVerifC18Verifier(t *testing.T) {
 						}
 					}
 					gotd["hash_list"] = vfC18Hexes(hashes)
-					res.AddMismatch(vfh.Mismatch{Class: cls, What: what, Walk: w.Walk, Step: i, Expected: "reject", Got: gotd, Cfg: op})
+					res.AddMismatch(vfh.Mismatch{Class: cls, What: what, Walk: w.Walk, Step: i, Expected: "reject", Got: gotd, Cfg: op, Prefix: append([]vfh.Op{}, prefix...)})
 				}
-			}
+			})
+			res.Count(1, 0)
 		}
-	})
+	}
 	if machinery != "" {
 		t.Fatalf("machinery: %s", machinery)
 	}
-	res.Count(1, 0)
+	res.Set("behaviours", walksRun)
+	res.Set("queries_on_a_cert_accepted_earlier", repeats)
 	res.Set("rows_accepted", accepted)
 	res.Set("rows_rejected", rejected)
 	res.Set("tls_handshakes", handshakes)
-	if accepted == 0 || rejected == 0 {
-		t.Fatalf("vacuous verifier run: %d accepted, %d rejected", accepted, rejected)
+	if accepted == 0 || rejected == 0 || repeats == 0 {
+		t.Fatalf("vacuous verifier run: %d accepted, %d rejected, %d repeated", accepted, rejected, repeats)
 	}
 }
 
